@@ -10,7 +10,9 @@ from ..oracles import helmert_ref as H
 
 RULE = ("points with |x|,|y|,|z| <= 5e7 m (all octants, axes, Earth-surface shell) x every shipped parameter set (complete "
         "enumeration, several points each) and random sets (|t| <= 1000 m, |scale| <= 100 ppm, |rotation| < 60 arcsec, with / "
-        "without uncertainties) x covariance (absent, PSD full rank / rank 2 / rank 1 / diagonal / zero / ill-conditioned); "
+        "without uncertainties, rotations up to the last float below 60, parameters as floats / ints / numpy scalars, expected values "
+        "taken from the generated spec) x covariance (absent, PSD full rank / rank 2 / rank 1 / diagonal / zero / ill-conditioned; "
+        "symmetric bit for bit or to rounding; float64 / int64 / float32 arrays; with and without parameter uncertainties); "
         "non-trivial = set with non-zero rotation or scale")
 ASSUMPTIONS = ["reference formula t + (1 + s 1e-6)(I + W(r arcsec)) X evaluated exactly in Fraction (gvp/oracles/helmert_ref.py), "
                "self-tested on the GDA2020 technical manual's worked example",
